@@ -167,8 +167,13 @@ def _exit(run, P):
                     for t_ in s_.targets if isinstance(t_, ast.Subscript)
                     and isinstance(t_.value, ast.Attribute) and dotted(t_.value.value) == "self"} \
                 if rel is not None else set()
+            if rel is not None:
+                kept |= {c_.func.value.attr for c_ in ast.walk(rel.node) if isinstance(c_, ast.Call)
+                         and isinstance(c_.func, ast.Attribute) and c_.func.attr in ("add", "append")
+                         and isinstance(c_.func.value, ast.Attribute) and dotted(c_.func.value.value) == "self"}
             names = {x.id for x in ast.walk(cb[0].test) if isinstance(x, ast.Name)}
-            srcs = set()
+            srcs = {y.attr for y in ast.walk(cb[0].test) if isinstance(y, ast.Attribute)
+                    and dotted(y.value) == "self"}
             for _ in range(4):
                 for s_ in ast.walk(f.node):
                     if isinstance(s_, (ast.Assign, ast.AugAssign)) and any(
@@ -180,6 +185,34 @@ def _exit(run, P):
                             if isinstance(y, ast.Attribute) and dotted(y.value) == "self":
                                 srcs.add(y.attr)
             if kept and srcs & kept:
+                # a release in the body can be jumped over (FailStep / SwitchPhase go to the exit
+                # label): "released already" has to know about the jumps - where names enter the
+                # record, or where the filter is worked out
+                from .util import path_conditions
+                jump_flags = None
+                for jn in ("emit_inst_FailStep", "emit_inst_SwitchPhase"):
+                    jm = P.func(f"{GEN}.{jn}")
+                    fl = {t_.attr for a_ in ast.walk(jm.node) if isinstance(a_, ast.Assign)
+                          for t_ in a_.targets if isinstance(t_, ast.Attribute) and dotted(t_.value) == "self"}
+                    jump_flags = fl if jump_flags is None else jump_flags & fl
+                entries = [st_ for st_ in ast.walk(rel.node) if isinstance(st_, (ast.Expr, ast.Assign))
+                           and any(isinstance(y, ast.Attribute) and y.attr in (srcs & kept)
+                                   and dotted(y.value) == "self" for y in ast.walk(st_))
+                           and not isinstance(st_, ast.If)]
+                aware_entry = bool(entries) and all(any(f"self.{fl_}" in t for t, _ in path_conditions(rel.node, st_)
+                                                        for fl_ in jump_flags) for st_ in entries)
+                defs_ = [s_ for s_ in ast.walk(f.node) if isinstance(s_, (ast.Assign, ast.AugAssign, ast.For))]
+                text_ = " ".join(ast.unparse(s_) for s_ in defs_ if any(
+                    isinstance(y, ast.Name) and y.id in names for y in ast.walk(s_)))
+                aware_filter = "FailStep" in text_ and "SwitchPhase" in text_
+                if not (aware_entry or aware_filter):
+                    run.ob("C12.exit", rel, entries[0] if entries else rel.node, False,
+                           construct=f"'released in the body' ({sorted(srcs & kept)}) takes the early exits into "
+                                     f"account (a flag both FailStep and SwitchPhase printers set, or a walk "
+                                     f"that stops at them)",
+                           why="a FailStep or SwitchPhase further up jumps to the exit label and over "
+                               "the release: skipped there as 'released already', the variable leaks")
+                    return
                 raise AnalysisError(f"lower_function: the release loop after the exit label is filtered by "
                                     f"a record of the release helper ({sorted(srcs & kept)}); not decided")
     run.ob("C12.exit", f, site, ok,
@@ -618,7 +651,12 @@ def _lastuse(run, P):
         queues = {x.func.value.attr for x in ast.walk(d.node) if isinstance(x, ast.Call)
                   and isinstance(x.func, ast.Attribute) and x.func.attr in ("append", "extend", "add")
                   and isinstance(x.func.value, ast.Attribute) and dotted(x.func.value.value) == "self"}
+        # (looking a name up in the record - `x not in self.<record>` - is no drain)
+        lookups = {id(c_.comparators[0]) for c_ in ast.walk(m_.node) if isinstance(c_, ast.Compare)
+                   and len(c_.ops) == 1 and isinstance(c_.ops[0], (ast.In, ast.NotIn))}
+        dels_ = {id(t_) for d_ in ast.walk(m_.node) if isinstance(d_, ast.Delete) for t_ in d_.targets}
         drains = any(isinstance(x, ast.Attribute) and x.attr in queues and isinstance(x.ctx, ast.Load)
+                     and id(x) not in lookups and id(x) not in dels_
                      for x in ast.walk(m_.node))
         if drains or any(isinstance(x, ast.Attribute) and x.attr == "loop_nesting_depth"
                          and isinstance(x.ctx, ast.Load) for x in ast.walk(m_.node)):
